@@ -23,7 +23,7 @@ class Contract:
     def __init__(self, id, func, call, params=None, bind=None, requires=(), ref=None, compare=("result", "exc"),
                  props=(), applies=None, assumed=False, known=(), note="", setup=(), ensures=(), raises_only=None,
                  loops=None, inline=(), timeout=None, ghost=None, max_paths=None, use_contracts=True, exc_compare="class",
-                 replay=True, bounded=None, ensures_exc=(), nondet=False):
+                 replay=True, bounded=None, ensures_exc=(), nondet=False, no_entry_check=False, callsite=True):
         self.id = id
         self.func = func
         self.call = call
@@ -50,6 +50,8 @@ class Contract:
         self.replay = replay
         self.bounded = bounded
         self.nondet = nondet
+        self.no_entry_check = no_entry_check
+        self.callsite = callsite      # False: never substituted for the callee at call sites
         self.ensures_exc = list(ensures_exc)  # postconditions on exceptional exit (over params and `exc`)
         REGISTRY.append(self)
         if id in BY_ID:
